@@ -1,6 +1,150 @@
-"""ProbOrdMinHash2: shared by C10, C11, C13 (filled in later)"""
+"""ProbOrdMinHash2: shared by C10, C11, C13 (harness bin `om`, TraceOrd.tla, OrdMinHash.tla, OrdOracle.tla)"""
+import itertools
+import json
+import os
+import random
 from common import *
 
 
+def model_check(chk, quick):
+    confs = [dict(M=2, L=1, N=3, B=2), dict(M=2, L=2, N=3, B=2)] if quick else \
+        [dict(M=2, L=1, N=3, B=2), dict(M=2, L=2, N=3, B=2), dict(M=3, L=1, N=3, B=3), dict(M=2, L=1, N=4, B=2),
+         dict(M=2, L=2, N=4, B=2)]
+    tot = 0
+    for n, c in enumerate(confs):
+        cc = dict(c)
+        cc["BreakOnReject"] = False
+        cfg = write_cfg(os.path.join(chk.wd, "omh_%d.cfg" % n), constants=cc, invariants=["SelectionIsLSmallest", "StoreBounded"])
+        res = tlc_check("OrdMinHash", cfg, chk.wd, workers=8, timeout=1500, xss=True)
+        chk.tlc_stats(res)
+        tot += res.distinct
+    cc = dict(M=2, L=1, N=3, B=2, BreakOnReject=True)
+    cfg = write_cfg(os.path.join(chk.wd, "omh_dev.cfg"), constants=cc, invariants=["SelectionIsLSmallest", "StoreBounded"])
+    tlc_check("OrdMinHash", cfg, chk.wd, workers=4, timeout=600, xss=True, expect_violation="SelectionIsLSmallest")
+    chk.cov.setdefault("layer_b", {})["OrdMinHash"] = dict(distinct_states=tot, deviations_refuted=["BreakOnReject"])
+    log("[%s] OrdMinHash.tla: %d distinct states, selection = L smallest for every table and order; BreakOnReject refuted" % (chk.pid, tot))
+
+
+def all_sequences(alphabet, length):
+    """all sequences = all permutations of all multisets of that size"""
+    return [list(s) for s in itertools.product(range(1, alphabet + 1), repeat=length)]
+
+
+def record_and_validate(chk, cases, label, seed=None, max_rounds=8):
+    """cases: list of dict(m, l, seqs); every seq of a case is hashed by the same instance, in order"""
+    inp = os.path.join(chk.wd, "ord_%s_in.json" % label)
+    json.dump(dict(cases=cases), open(inp, "w"))
+    tf = os.path.join(chk.wd, "trace_ord_%s.ndjson" % label)
+    harness("om", ["record", "in=" + inp, "out=" + tf, "seed=%d" % (chk.seed if seed is None else seed)], timeout=1500)
+    rows = read_ndjson(tf)
+    nruns = sum(1 for r in rows if r.get("op") == "new")
+    nev = sum(1 for r in rows if r.get("op") == "hs")
+    chk.add("traces_validated_against_impl", nruns)
+    chk.add("trace_events", nev)
+    chk.add("evaluations", nev)
+    chk.add("distinct_nontrivial", sum(1 for r in rows if r.get("op") == "hs" and r.get("out") == "ok"
+                                       and len(set(tuple(s) for s in r.get("sel", []))) >= 2))
+    untabled = sum(1 for r in rows if r.get("op") == "untabled")
+    if untabled:
+        chk.notes.append("%s: %d runs skipped because a pair table could not be measured" % (label, untabled))
+        bad_runs = set(r["run"] for r in rows if r.get("op") == "untabled")
+        rows = [r for r in rows if r.get("run") not in bad_runs]
+        write_ndjson(tf, rows)
+    cur = tf
+    rejected = 0
+    wall = 0
+    while True:
+        v = validate_trace("TraceOrd", cur, chk.wd, timeout=1500)
+        wall += v["wall"]
+        if v["accepted"]:
+            break
+        rejected += 1
+        rws = read_ndjson(cur)
+        bad = rws[v["matched"]]
+        run = bad.get("run")
+        hd = [r for r in rws if r.get("op") == "new" and r.get("run") == run]
+        evs = [r for r in rws if r.get("run") == run and r.get("op") != "new"]
+        h = hd[0] if hd else {}
+        what = "panic" if bad.get("out") == "panic" else ("unsorted" if bad.get("sorted") is False else (
+            "signature" if bad.get("sigeq") and not all(bad["sigeq"]) else "selection"))
+        reps = any(p[1] > 1 for p in h.get("pairs", []) if p[0] in set(h["pairs"][i - 1][0] for i in bad.get("order", [])))
+        chk.violation(dict(kind="ord", what=what, l=h.get("l"), where=label),
+                      dict(kind="ord-trace", label=label, header=h, events=evs, rejected_event=bad))
+        if rejected >= max_rounds:
+            chk.notes.append("%s: more than %d rejected runs, remainder not examined" % (label, max_rounds))
+            break
+        cur = os.path.join(chk.wd, "rest_%d_%s" % (rejected, os.path.basename(tf)))
+        write_ndjson(cur, [r for r in rws if r.get("run") != run])
+    for r in rows[1:]:
+        if r.get("op") == "hs":
+            chk.sample(dict(label=label, **r), cap=8)
+            break
+    log("[%s] %s: %d hash_set calls in %d runs, %d run(s) rejected (%.1fs TLC)" % (chk.pid, label, nev, nruns, rejected, wall))
+    return rejected
+
+
+def c11_cases(chk, quick):
+    rnd = random.Random(chk.seed)
+    cases = []
+    # every permutation of every multiset over 3 symbols, length 3 (27 sequences) and length 4 (81)
+    s3 = all_sequences(3, 3)
+    s4 = all_sequences(3, 4)
+    for m in ([1, 2, 3, 4] if quick else [1, 2, 3, 4, 5, 8]):
+        for l in (1, 2, 3):
+            cases.append(dict(m=m, l=l, seqs=s3))
+    for m in ([2, 3] if quick else [1, 2, 3, 4, 6]):
+        for l in ([1, 2] if quick else [1, 2, 3, 4]):
+            cases.append(dict(m=m, l=l, seqs=s4))
+    if not quick:
+        s5 = all_sequences(2, 5) + all_sequences(3, 5)[::3]
+        for m in (2, 3, 4):
+            for l in (1, 2, 3):
+                cases.append(dict(m=m, l=l, seqs=s5))
+    # random larger sequences with all their rotations and a few shuffles (n <= 60, alphabet 2..30)
+    for _ in range(6 if quick else 60):
+        n = rnd.randint(4, 60)
+        alpha = rnd.randint(2, 30)
+        maxmult = 14
+        seq = []
+        cnt = {}
+        while len(seq) < n:
+            e = rnd.randint(1, alpha)
+            if cnt.get(e, 0) < maxmult:
+                seq.append(e)
+                cnt[e] = cnt.get(e, 0) + 1
+        seqs = [seq]
+        for _ in range(6):
+            s = list(seq)
+            rnd.shuffle(s)
+            seqs.append(s)
+        seqs.append(list(reversed(seq)))
+        cases.append(dict(m=rnd.choice([1, 2, 3, 5, 16, 64]), l=rnd.choice([1, 2, 3, 5]) if n >= 5 else 1, seqs=seqs))
+    return cases
+
+
 def c13_part(chk, quick):
-    chk.notes.append("ProbOrdMinHash2 self-clearing hash_set: see C11 (earlier hash_set calls on the same instance)")
+    """self-clearing hash_set: sequences of different lengths/multiplicities one after the other on one instance"""
+    build_harness("om")
+    rnd = random.Random(chk.seed + 13)
+    cases = []
+    for _ in range(20 if quick else 200):
+        seqs = []
+        for _ in range(rnd.randint(2, 4)):
+            n = rnd.randint(3, 12)
+            alpha = rnd.randint(1, 4)
+            seqs.append([rnd.randint(1, alpha) for _ in range(n)])
+        cases.append(dict(m=rnd.choice([1, 2, 3, 4, 8]), l=rnd.choice([1, 2, 3]), seqs=seqs))
+    return record_and_validate(chk, cases, "c13-selfclearing", seed=chk.seed + 13)
+
+
+def replay_one(chk, path, pid):
+    sc = json.load(open(path))["scenario"]
+    if sc.get("kind") != "ord-trace":
+        return None
+    tf = os.path.join(chk.wd, "one.ndjson")
+    write_ndjson(tf, [dict(kind="ord"), sc["header"]] + sc["events"])
+    v = validate_trace("TraceOrd", tf, chk.wd)
+    log("recorded run re-validated by TLC: accepted=%s (first unmatched event index %d)" % (v["accepted"], v["matched"]))
+    if not v["accepted"]:
+        log("VIOLATION property=%s replay=%s" % (pid, path))
+    return 0 if v["accepted"] else 1
